@@ -51,6 +51,8 @@ static unsigned fe_iters;                          // operator invocations of th
 
 // pts = false: per-thread storage is not initialised (for algorithms that use none: partition, sort); saves the
 // 30-entry free-list table loop of PerBackend()
+void check_hook(); // defined below, after ParallelSTL.h
+
 inline void init(unsigned t, long cutoff, long block, bool pts = true) {
   T = t;
   if (pts) {
@@ -63,6 +65,7 @@ inline void init(unsigned t, long cutoff, long block, bool pts = true) {
   galois::runtime::activeThreads = t;
   vf_pstl_cutoff                 = cutoff;
   vf_pstl_block                  = block;
+  check_hook();
 }
 
 // light-weight loop context for operators that take their context as a template parameter (sort_helper)
@@ -146,6 +149,17 @@ std::false_type invocable_with(...);
 } // namespace vf16
 
 #include "galois/ParallelSTL.h"
+
+// Without the GALOIS_VERIF hook in ParallelSTL.h the constants stay 1024 and every small input silently takes the
+// serial std:: path: make that a loud failure of every obligation instead of a vacuous pass.
+namespace vf16 {
+inline void check_hook() {
+  typedef bool (*P)(int);
+  galois::ParallelSTL::partition_helper<int*, P>::partition_helper_state st(nullptr, nullptr, nullptr);
+  VF_CHECKM(st.BlockSize() == vf_pstl_block,
+            "environment: ParallelSTL.h lacks the GALOIS_VERIF hook (GALOIS_PSTL_CUTOFF / GALOIS_PSTL_BLOCK not honoured)");
+}
+} // namespace vf16
 
 // The REAL galois::UserContext (handed to find_if_helper) owns a per-iteration allocator whose source heap lives in
 // Mem.cpp / PagePool.cpp (C09's subject).  No operator of ParallelSTL allocates from it; the out-of-line pieces are
